@@ -55,7 +55,10 @@ def corpus(thorough):
            {"reactants": ["CO", "PHOTON"], "products": ["C", "O"], "alpha": 2.0e-10, "gamma": 2.5, "reaction_type": 102, "idxfromfile": 9},
            {"reactants": ["H", "H", "H"], "products": ["H2", "H"], "alpha": 1e-32, "beta": -1.0, "reaction_type": 100, "idxfromfile": -1},
            {"reactants": ["CH3OH2+", "e-"], "products": ["C", "O", "H", "H2", "H2"], "alpha": 3e-8, "beta": -0.5, "reaction_type": 100, "idxfromfile": 11},
-           {"reactants": ["CH3OH", "He+", "CR"], "products": ["He", "C+", "OH", "H2", "H"], "alpha": 1e-9, "reaction_type": 100, "idxfromfile": 12}]
+           {"reactants": ["CH3OH", "He+", "CR"], "products": ["He", "C+", "OH", "H2", "H"], "alpha": 1e-9, "reaction_type": 100, "idxfromfile": 12},
+           # names wider than the 12-character species column of the native format (two of them share their first 12 characters)
+           {"reactants": ["HOCH2CH2CH2OH", "H3+"], "products": ["HOCH2CH2CH2OH2+", "H2"], "alpha": 2e-9, "beta": -0.5, "reaction_type": 100, "idxfromfile": 13},
+           {"reactants": ["HOCH2CH2CH2OH2+", "e-"], "products": ["HOCH2CH2CH2OH", "H"], "alpha": 3e-7, "beta": -0.5, "reaction_type": 100, "idxfromfile": 14}]
     out.append(("API", {"reactions": api, "network": {}}, None, "api"))
     return out
 
